@@ -121,6 +121,7 @@ def handle (f : List String) : String :=
         let e' := applyOp cat acc.1 op
         if op = "load" then (e', acc.2 ++ [dump e']) else (e', acc.2)) ({}, [])
       " || ".intercalate (outs ++ [dump e])
+  | "conc" :: _ => "-"
   | _ => "BAD-CASE"
 
 end MtailVerif.Driver.Rt
